@@ -735,7 +735,7 @@ def set_cases(E, ctx):
         HM.unfold_hlk(E, Dold, q, depth=1)
         HM.unfold_hlk(E, Dn, q, depth=3)
         _key_pair_facts_hex(E, K, q, Dold)
-        HM.unfold_wf(E, Dn)
+        HM.unfold_wf_deep(E, Dn)
         return [("view", mk_bool(HM.hlk(Dn, q) == hview_after_set(Dold, K, V, q))),
                 ("never-blank", mk_bool(z3.Not(HNode.is_HBlank(Dn)))),
                 ("well-formed", mk_bool(HM.hwfp(Dn)))]
@@ -910,7 +910,7 @@ def del_cases(E, ctx):
         HM.unfold_hlk(E, Dn, q, depth=3)
         _key_pair_facts_hex(E, K, q, Dold)
         _merged_path_facts(E, Dn, q, K)
-        HM.unfold_wf(E, Dn)
+        HM.unfold_wf_deep(E, Dn)
         return [("view", mk_bool(HM.hlk(Dn, q) == hview_after_del(Dold, K, q))), ("well-formed", mk_bool(HM.hwfp(Dn)))]
 
     def make():
